@@ -156,7 +156,7 @@ def main(chk: core.Check, replay):
             cur = results[s][mid]
             diff = [k for k in ref if k != "iters" and cur.get(k) != ref[k]]
             if diff:
-                chk.violation(f"C09:seed-dependent:{'+'.join(sorted(diff))}:{mid if not mid[1:].isdigit() else 'generated-model'}",
+                chk.violation(f"C09:process-dependent:{'+'.join(sorted(diff))}:{mid if not mid[1:].isdigit() else 'generated-model'}",
                               {"model": by_id[mid]["text"], "seed_a": ref_seed, "seed_b": s,
                                "differs": {k: [ref.get(k), cur.get(k)] for k in diff if k.endswith('index') or k == 'components'},
                                "fields": diff},
